@@ -108,9 +108,9 @@ ChainOk(pre, post, a) ==
           \* first record: at the node and visit the customer is in (created in this event or earlier)
           IF IsLive(pre, r.id) THEN r.n = CuOf(pre, r.id).loc /\ r.arr = CuOf(pre, r.id).arr
           ELSE r.id > pre.created /\ r.n = post.ev.node /\ r.arr = post.now
+       ELSE IF r.type \in {"baulk", "rejection"} THEN FALSE      \* only ever a first record
        ELSE IF p.type = "renege" THEN r.arr = p.exit    \* only after jockeying to another node (C13 says where)
        ELSE IF Terminal(p.type) THEN FALSE
-       ELSE IF r.type \in {"baulk", "rejection"} THEN FALSE      \* only ever a first record
        ELSE IF p.type = "interrupted service" /\ p.dest = NONE THEN r.n = p.n /\ r.arr = p.arr
        ELSE r.n = p.dest /\ r.arr = p.exit
 
@@ -214,6 +214,11 @@ F_C07_step(cfg, pre, post) ==
               LET b == FinishDecision(post, a)
               IN b # 0 /\ LET s == post.steps[b]
                           IN IF s.k = "release" THEN s.d = EXIT \/ s.x < s.y ELSE s.d # EXIT /\ s.x >= s.y)
+       \cup Chk("C07.blocked-customer-is-not-served-again", \A a \in IdxOf(post, "start") :
+              \* a blocked customer has finished its service: it is not given a new one while it stays blocked
+              LET s == post.steps[a]
+              IN IsLive(pre, s.i) /\ CuOf(pre, s.i).blk /\ IsLive(post, s.i) /\ CuOf(post, s.i).loc = CuOf(pre, s.i).loc
+                 => ~CuOf(post, s.i).blk)
        \cup Chk("C07.blocked-keeps-place", \A j \in DOMAIN pre.cu :
               LET c == pre.cu[j]
               IN c.blk =>
